@@ -5,7 +5,7 @@ Import ListNotations.
 Local Open Scope string_scope.
 Local Open Scope Z_scope.
 Definition alias_scoped_f : bool := true.
-Definition schema_aia_f : bool := true.
+Definition schema_aia_f : bool := false.
 Definition schema_drops_view_f : bool := false.
 Definition wrap_needed_f (new_op last_op : Z) : bool := ((Z.ltb new_op last_op) || ((Z.eqb last_op new_op) && (Z.eqb new_op (5)))).
 Definition gen_cfg : cfg := mkCfg alias_scoped_f schema_aia_f schema_drops_view_f (-1) (0) (1) (2) (5) wrap_needed_f.
